@@ -1,5 +1,5 @@
 (* Cases.v — concrete instances used when the models are *run* (correspondence), never in theorems. *)
-From Beff Require Export Model.Validate Model.Parse Model.Report Model.Hash256Enc Model.Bdd Model.SemType.
+From Beff Require Export Model.Validate Model.Parse Model.Report Model.Hash256Enc Model.Bdd Model.SemType Model.Schema.
 
 Fixpoint str_len (s : string) : nat := match s with EmptyString => 0 | String _ s' => S (str_len s') end.
 
@@ -58,3 +58,24 @@ Definition truth_table (atoms : list atom) (b : bdd) : string :=
   concat_str "" (map (fun rho => show_bool (eval rho b)) (assignments atoms)).
 Definition truth_table_dnf (atoms : list atom) (d : dnf) : string :=
   concat_str "" (map (fun rho => show_bool (eval_dnf rho d)) (assignments atoms)).
+
+(* ---------- schemas ---------- *)
+Definition run_schema_flat (env : renv) (r : rt) : string :=
+  match schema env default_conf Flat FUEL [] None empty_ctx r with
+  | Ok p => show_json (fst p)
+  | Throw e => show_exn e
+  end.
+(* a history of schemaWithContext calls on one context; stops being meaningful after the first throw *)
+Definition run_ctxseq (env : renv) (cf : pconf) (rts : list rt) (calls : list nat) : string :=
+  let step (acc : list string * option pctx) (i : nat) :=
+    match snd acc with
+    | None => (fst acc ++ ["<after-throw>"], None)
+    | Some c =>
+        match schema env cf Contextual FUEL [] None c (nth i rts RAny) with
+        | Ok p => (fst acc ++ [show_json (fst p)], Some (snd p))
+        | Throw e => (fst acc ++ [show_exn e], None)
+        end
+    end in
+  let r := fold_left step calls ([], Some empty_ctx) in
+  concat_str " ;; " (fst r) +++ " ==> " +++
+  match snd r with Some c => show_json (export_definitions cf c) | None => "<after-throw>" end.
